@@ -2173,7 +2173,8 @@ pub fn probe_json(p: &quinn_proto::verif::ConnProbe, level: u8) -> Value {
         json!({"rem":p.remote.map_or(0, addr_id),"gen":p.generation,"val":p.validated,
             "sent":p.total_sent,"recvd":p.total_recvd,"chal":p.challenge,"chalp":p.challenge_pending,
             "ifb":p.in_flight_bytes,"ifae":p.in_flight_ack_eliciting,"mtu":p.mtu,"cwnd":p.cwnd,
-            "rtt":p.rtt_us,"ptob":p.pto_base_us,"secn":p.sending_ecn})
+            "rtt":p.rtt_us,"ptob":p.pto_base_us,"secn":p.sending_ecn,
+            "rttp":[p.rtt_parts_ns.0, p.rtt_parts_ns.1.map_or(-1, |x| x as i64), p.rtt_parts_ns.2, p.rtt_parts_ns.3]})
     };
     let spaces: Vec<Value> = p
         .spaces
@@ -2183,12 +2184,13 @@ pub fn probe_json(p: &quinn_proto::verif::ConnProbe, level: u8) -> Value {
                 "rx":s.rx_packet,"dd":s.dedup_next,"lp":s.loss_probes,"nsent":s.sent.len(),
                 "nlost":s.lost_packets,"coff":s.crypto_offset,"cread":s.crypto_read,
                 "pcrypto":s.pending_crypto,"pretire":s.pending_retire_cids,"pack":s.pending_ack_ranges,
-                "tail":s.unacked_non_ack_eliciting_tail});
+                "tail":s.unacked_non_ack_eliciting_tail,
+                "lt":s.loss_time_us.unwrap_or(-1),"lae":s.last_ack_eliciting_us.unwrap_or(-1)});
             if level >= 2 {
                 v["sent"] = s
                     .sent
                     .iter()
-                    .map(|(pn, sz, ae, g, _)| json!([pn, sz, ae, g]))
+                    .map(|(pn, sz, ae, g, t)| json!([pn, sz, ae, g, t]))
                     .collect();
             }
             v
@@ -2231,6 +2233,7 @@ pub fn probe_json(p: &quinn_proto::verif::ConnProbe, level: u8) -> Value {
         "dgot":p.dgram_outgoing_total,"dgsb":p.dgram_send_blocked,"pir":p.permit_idle_reset,
         "rcid":p.rem_cid_active_seq,"lcids":p.loc_cid_active,"lissued":p.loc_cid_issued,
         "lrpt":p.loc_cid_retire_prior_to,"presp":!p.path_responses_empty,
+        "pmad":p.peer_max_ack_delay_us,
     })
 }
 
